@@ -59,6 +59,20 @@ class SDict:
         return "SDict(%d)" % len(self.pairs)
 
 
+def pd_find(I, d, k, note="dict key"):
+    """the stored key of the plain dict d that equals k, or None (forks on symbolic equality, like sd_find; z3
+    expressions hash structurally, so a python dict can hold them as keys)"""
+    for ki in list(d.keys()):
+        r = equals(I, ki, k)
+        if r is True:
+            return ki
+        if r is False:
+            continue
+        if I.ctx.decide(to_z3(r), note):
+            return ki
+    return None
+
+
 def sd_find(I, d, k, note="dict key"):
     """index of key k in d or None (forks on symbolic equality)"""
     for i, (ki, _) in enumerate(d.pairs):
@@ -749,8 +763,11 @@ def getitem(I, obj, idx):
             I.raise_exc(KEY_ERR, "key")
         return obj.pairs[i][1]
     if isinstance(obj, dict):
-        if is_z3(idx):
-            return listops.dict_get_symbolic(I, obj, idx)
+        if is_z3(idx) or any(is_z3(k) for k in obj):
+            k = pd_find(I, obj, idx)
+            if k is None:
+                I.raise_exc(KEY_ERR, "key")
+            return dict.__getitem__(obj, k)
         if idx not in obj:
             I.raise_exc(KEY_ERR, repr(idx))
         return obj[idx]
@@ -780,8 +797,10 @@ def setitem(I, obj, idx, v):
         return
     if isinstance(obj, dict):
         I.check_mutable(obj)
-        if is_z3(idx):
-            raise Unsupported("symbolic dict key store")
+        if is_z3(idx) or any(is_z3(k) for k in obj):
+            k = pd_find(I, obj, idx)
+            dict.__setitem__(obj, idx if k is None else k, v)
+            return
         obj[idx] = v
         return
     if isinstance(obj, AList):
